@@ -247,14 +247,25 @@ def _structure_job(args):
                     per.append(("non-real-diagonal:component-%s" % "wxyz"[c_], Dc))
             for what, M in [("non-hermitian", N), ("non-square", R), ("non-real-diagonal", Dg), ("slightly-non-real-diagonal", Dt)] + per:
                 t = rec.new(fn, "guard:" + what, {"n": n, "A": M.tolist()})
-                try:
-                    import contextlib
-                    import io
-                    with contextlib.redirect_stdout(io.StringIO()):
-                        f(q_from_float(M))
-                    rec.flag(t, "RejectsOutOfDomain", False)
-                except Exception:
-                    rec.flag(t, "RejectsOutOfDomain", True)
+                import contextlib
+                import io
+                # the guard holds in every calling style: defaults, verbose by keyword, verbose positionally
+                for style in ((), ("kw",), ("pos",)):
+                    try:
+                        with contextlib.redirect_stdout(io.StringIO()):
+                            if not style:
+                                f(q_from_float(M))
+                            elif style[0] == "kw":
+                                f(q_from_float(M), verbose=True)
+                            else:
+                                f(q_from_float(M), True)
+                        rejected = False
+                    except TypeError:
+                        rejected = True if not style else None      # the routine has no such option / position: nothing to judge
+                    except Exception:
+                        rejected = True
+                    if rejected is not None:
+                        rec.flag(t, "RejectsOutOfDomain", rejected)
     return rec.events, rec.info
 
 
